@@ -11,7 +11,8 @@ Line driver for C26.  The model never computes SHA-256: hashes are *names*.
   hash function, re-evaluated with the real code by the harness).  The model's `H1` is this finite table; a
   combination outside the table is the unknown hash `?` (and stays unknown).  `e` = `hash_empty()`, `z` = the
   all-zero `EMPTY_HASH`.
-* ops (outputs joined by ` | `): see `step`.
+* ops (outputs joined by ` | `): see `step`.  The model mirrors the code as it is (VerifyConsistency / ConsistencyProof
+  since bf734509); the hash file is `FileStore` = content + write cursor, reads are `codeReadKind` (regenerated fact).
 -/
 namespace OntVerif.Driver.C26
 open OntVerif.Util OntVerif.Model.Merkle
@@ -55,17 +56,16 @@ def parseTab (a : Nat) (s : String) : Option Tab :=
       | _ => none
   go (s.splitOn ",") 0 {}
 
-/-- `.shipped` = the unchanged tree (`VerifyConsistency` shortcuts, `ConsistencyProof(0, n)` wrap-around), `.sound` = the
-tree with `fixes/C26-consistency-shortcuts.patch`; the driver prints `shipped ## sound` when the two differ on a line -/
-inductive Variant | shipped | sound
-  deriving DecidableEq, Repr
-
+/-- the tree under test: `fs = none` is the nil hash store; a memHashStore is a file whose cursor is always at its end -/
 structure St where
-  tree : Option (Tree N)       -- none after a Go panic
-  file : Bool                  -- file hash store (reopen ops apply)
-  mem : Bool := false          -- memHashStore (an out-of-range read panics)
-  var : Variant := .sound
+  size : Nat
+  hashes : List N
+  fs : Option (FileStore N)
+  file : Bool                  -- fileHashStore (reopen ops apply)
+  dead : Bool := false         -- after a Go panic inside AppendHash
   deriving Repr
+
+def St.view (st : St) : Tree N := ⟨st.size, st.hashes, st.fs.map (·.content)⟩
 
 def nats2 (s : String) : Option (Nat × Nat) :=
   match s.splitOn "," with
@@ -80,100 +80,113 @@ def verr : VErr → String
 
 /-- one op on the tree; returns output token and new state -/
 def step (H1 : N → N → N) (st : St) (op : String) : String × St :=
-  match st.tree with
-  | none => ("PANIC", st)
-  | some t =>
-    if op.startsWith "ad" || op.startsWith "a" then
-      let arg := if op.startsWith "ad" then op.drop 2 else op.drop 1
-      match arg.toString.toNat? with
-      | none => ("bad-op", st)
-      | some k =>
+  if st.dead then ("PANIC", st) else
+  let t := st.view
+  if op.startsWith "ad" || op.startsWith "a" then
+    let arg := if op.startsWith "ad" then op.drop 2 else op.drop 1
+    match arg.toString.toNat? with
+    | none => ("bad-op", st)
+    | some k =>
+      match st.fs with
+      | some f =>
+        match (⟨st.size, st.hashes, f⟩ : FTree N).appendHash H1 (.id k) with
+        | none => ("PANIC", { st with dead := true })
+        | some t' => ("a:" ++ showNs st.hashes.reverse, { st with size := t'.size, hashes := t'.hashes, fs := some t'.fs })
+      | none =>
         match t.appendHash H1 (.id k) with
-        | none => ("PANIC", { st with tree := none })
-        | some (t', audit) => ("a:" ++ showNs audit, { st with tree := some t' })
-    else if op == "r" then ("r:" ++ showN (t.root H1 .e), st)
-    else if op == "h" then (s!"h:{t.size}:{showNs t.hashes}", st)
-    else if op == "s" then
-      match t.store with
-      | none => ("s:none", st)
-      | some s => (s!"s:{s.length}:{showNs s}", st)
-    else if op == "u" then
-      match unmarshal (Hash := N) none t.marshal with
-      | none => ("u:err", st)
-      | some t2 => (s!"u:{t2.size}:{showNs t2.hashes}", st)
-    else if op.startsWith "g" then
-      match (op.drop 1).toString.toNat? with
+        | none => ("PANIC", { st with dead := true })
+        | some (t', audit) => ("a:" ++ showNs audit, { st with size := t'.size, hashes := t'.hashes })
+  else if op == "r" then ("r:" ++ showN (t.root H1 .e), st)
+  else if op == "h" then (s!"h:{t.size}:{showNs t.hashes}", st)
+  else if op == "s" then
+    match st.fs with
+    | none => ("s:none", st)
+    | some f => let s := f.content.take (storedHashNum st.size); (s!"s:{s.length}:{showNs s}", st)
+  else if op == "u" then
+    match unmarshal (Hash := N) none t.marshal with
+    | none => ("u:err", st)
+    | some t2 => (s!"u:{t2.size}:{showNs t2.hashes}", st)
+  else if op.startsWith "g" then
+    match (op.drop 1).toString.toNat? with
+    | none => ("bad-op", st)
+    | some k => match t.rootWithNewLeaf H1 (.id k) with
+      | none => ("PANIC", st)
+      | some r => ("g:" ++ showN r, st)
+  else if op.startsWith "q" then
+    -- raw GetHash(pos) on the file store, read the way the code reads (`codeReadKind`)
+    match (op.drop 1).toString.toNat?, (if st.file then st.fs else none) with
+    | some pos, some f =>
+      let (h, f') := f.getHash codeReadKind pos
+      ((match h with | some x => "q:" ++ showN x | none => "q:err"), { st with fs := some f' })
+    | some _, none => ("q:na", st)
+    | none, _ => ("bad-op", st)
+  else if op.startsWith "m" then
+    match (op.drop 1).toString.toNat?, t.store with
+    | some n, some s =>
+      if n = 0 ∨ n > t.size then ("m:range", st) else
+      match merkleRootAt H1 s n with
+      | none => ("m:PANIC", st)
+      | some r => ("m:" ++ showN r, st)
+    | _, _ => ("bad-op", st)
+  else if op.startsWith "i" then
+    match nats2 (op.drop 1).toString with
+    | none => ("bad-op", st)
+    | some (m, n) =>
+      match t.inclusionProof H1 m n with
+      | .error .params => ("i:params", st)
+      | .error .notAvail => ("i:notavail", st)
+      | .error .noStore => ("i:nostore", st)
+      | .ok none => ("i:PANIC", st)
+      | .ok (some p) => ("i:" ++ showNs p, st)
+  else if op.startsWith "c" then
+    match nats2 (op.drop 1).toString with
+    | none => ("bad-op", st)
+    | some (m, n) =>
+      match t.consistencyProof H1 m n with
+      | none => ("c:nil", st)
+      | some none => ("c:PANIC", st)
+      | some (some p) => ("c:" ++ showNs p, st)
+  else if op.startsWith "vi" then
+    match (op.drop 2).toString.splitOn "," with
+    | [leaf, idx, size, root, proof] =>
+      match parseN leaf, idx.toNat?, size.toNat?, parseN root, parseNs proof with
+      | some leaf, some idx, some size, some root, some proof =>
+        match verifyInclusion H1 leaf idx proof root size with
+        | .ok () => ("vi:ok", st)
+        | .error e => ("vi:" ++ verr e, st)
+      | _, _, _, _, _ => ("bad-op", st)
+    | _ => ("bad-op", st)
+  else if op.startsWith "vc" then
+    match (op.drop 2).toString.splitOn "," with
+    | [m, n, o, nw, proof] =>
+      match m.toNat?, n.toNat?, parseN o, parseN nw, parseNs proof with
+      | some m, some n, some o, some nw, some proof =>
+        match verifyConsistency H1 .e m n o nw proof with
+        | .ok () => ("vc:ok", st)
+        | .error e => ("vc:" ++ verr e, st)
+      | _, _, _, _, _ => ("bad-op", st)
+    | _ => ("bad-op", st)
+  else if op.startsWith "R" then
+    -- R = close + NewFileHashStore + NewTree on the physical file; Rt<k>: k extra (zero) hashes appended to the file
+    -- first; Rs<k>: the file cut so that k of the hashes the tree needs are missing
+    match (if st.file then st.fs else none) with
+    | none => ("R:na", st)
+    | some f =>
+      let file : Option (List N) :=
+        if op == "R" then some f.content
+        else if op.startsWith "Rt" then (op.drop 2).toString.toNat?.map (fun k => f.content ++ List.replicate k .z)
+        else if op.startsWith "Rs" then (op.drop 2).toString.toNat?.map (fun k => f.content.take (storedHashNum st.size - k))
+        else none
+      match file with
       | none => ("bad-op", st)
-      | some k => match t.rootWithNewLeaf H1 (.id k) with
-        | none => ("PANIC", st)
-        | some r => ("g:" ++ showN r, st)
-    else if op.startsWith "m" then
-      match (op.drop 1).toString.toNat?, t.store with
-      | some n, some s =>
-        if n = 0 ∨ n > t.size then ("m:range", st) else
-        match merkleRootAt H1 s n with
-        | none => ("m:PANIC", st)
-        | some r => ("m:" ++ showN r, st)
-      | _, _ => ("bad-op", st)
-    else if op.startsWith "i" then
-      match nats2 (op.drop 1).toString with
-      | none => ("bad-op", st)
-      | some (m, n) =>
-        match t.inclusionProof H1 m n with
-        | .error .params => ("i:params", st)
-        | .error .notAvail => ("i:notavail", st)
-        | .error .noStore => ("i:nostore", st)
-        | .ok none => ("i:PANIC", st)
-        | .ok (some p) => ("i:" ++ showNs p, st)
-    else if op.startsWith "c" then
-      match nats2 (op.drop 1).toString with
-      | none => ("bad-op", st)
-      | some (m, n) =>
-        match (if st.var = .sound then t.consistencyProof H1 m n else t.consistencyProofShipped H1 .z st.mem m n) with
-        | none => ("c:nil", st)
-        | some none => ("c:PANIC", st)
-        | some (some p) => ("c:" ++ showNs p, st)
-    else if op.startsWith "vi" then
-      match (op.drop 2).toString.splitOn "," with
-      | [leaf, idx, size, root, proof] =>
-        match parseN leaf, idx.toNat?, size.toNat?, parseN root, parseNs proof with
-        | some leaf, some idx, some size, some root, some proof =>
-          match verifyInclusion H1 leaf idx proof root size with
-          | .ok () => ("vi:ok", st)
-          | .error e => ("vi:" ++ verr e, st)
-        | _, _, _, _, _ => ("bad-op", st)
-      | _ => ("bad-op", st)
-    else if op.startsWith "vc" then
-      match (op.drop 2).toString.splitOn "," with
-      | [m, n, o, nw, proof] =>
-        match m.toNat?, n.toNat?, parseN o, parseN nw, parseNs proof with
-        | some m, some n, some o, some nw, some proof =>
-          match (if st.var = .sound then verifyConsistency H1 .e m n o nw proof
-                 else verifyConsistencyShipped H1 m n o nw proof) with
-          | .ok () => ("vc:ok", st)
-          | .error e => ("vc:" ++ verr e, st)
-        | _, _, _, _, _ => ("bad-op", st)
-      | _ => ("bad-op", st)
-    else if op.startsWith "R" then
-      -- R = reopen; Rt<k> = reopen a file with k stale hashes after the expected end; Rs<k> = k hashes missing
-      match (if st.file then t.store else none) with
-      | none => ("R:na", st)
-      | some s =>
-        let file : Option (List N) :=
-          if op == "R" then some s
-          else if op.startsWith "Rt" then (op.drop 2).toString.toNat?.map (fun k => s ++ List.replicate k .z)
-          else if op.startsWith "Rs" then (op.drop 2).toString.toNat?.map (fun k => s.take (s.length - k))
-          else none
-        match file with
-        | none => ("bad-op", st)
-        | some f =>
-          match reopenStore f t.size with
-          | none => ("R:err", st)
-          | some s' =>
-            match newTree t.size t.hashes (some s') with
-            | none => ("PANIC", { st with tree := none })
-            | some t' => ("R:ok", { st with tree := some t' })
-    else ("bad-op", st)
+      | some fl =>
+        match FileStore.open fl st.size with
+        | none => ("R:err", st)
+        | some f' =>
+          match newTree st.size st.hashes (some f'.content) with
+          | none => ("PANIC", { st with dead := true })
+          | some _ => ("R:ok", { st with fs := some f' })
+  else ("bad-op", st)
 
 def run (H1 : N → N → N) : St → List String → List String → String
   | _, [], acc => " | ".intercalate acc.reverse
@@ -190,18 +203,11 @@ def handle (line : String) : String :=
       match parseTab a tab with
       | none => "bad-op"
       | some t =>
-        let store : Option (Option (List N)) :=
-          if mode == "F" || mode == "M" then some (some []) else if mode == "N" then some none else none
-        match store with
+        let fs : Option (Option (FileStore N)) :=
+          if mode == "F" || mode == "M" then some (some ⟨[], 0⟩) else if mode == "N" then some none else none
+        match fs with
         | none => "bad-op"
-        | some s =>
-          match newTree (Hash := N) 0 [] s with
-          | none => "PANIC"
-          | some tr =>
-            let opl := ops.splitOn ";"
-            let a := run (mkH1 t) ⟨some tr, mode == "F", mode == "M", .shipped⟩ opl []
-            let b := run (mkH1 t) ⟨some tr, mode == "F", mode == "M", .sound⟩ opl []
-            if a == b then a else a ++ " ## " ++ b
+        | some f => run (mkH1 t) ⟨0, [], f, mode == "F", false⟩ (ops.splitOn ";") []
   | _ => "bad-op"
 
 end OntVerif.Driver.C26
